@@ -2,11 +2,11 @@
 (* Exhaustive configurations for Recursor (C19, obligation D).               *)
 EXTENDS Recursor, RecursorNets
 
-MC_Quick == HostileNets({"in", "sib-noglue", "out", "lame"}, MModes, {"a", "cname-out", "loop2", "loop3"})
-            \cup FilterNets(LModes, {"in", "sib-noglue"}, {"a", "cname-in", "cname-out"})
-MC_All   == HostileNets(LModes, MModes, TModes) \cup FilterNets(LModes, MModes, TModes)
+MC_Quick == HostileParams({"in", "sib-noglue", "out", "lame"}, MModes, {"a", "cname-out", "loop2", "none"})
+            \cup FilterParams(LModes, {"in", "sib-noglue"}, {"a", "cname-in", "cname-out"})
+MC_All   == HostileParams(LModes, MModes, TModes) \cup FilterParams(LModes, MModes, TModes)
 \* the counterexample to the "asis" rule: l.t1 is served by a name under the other TLD, whose
-\* zone's server adds an address record with a foreign owner to the answer section
+\* zone's server adds an address record with a foreign owner to the answers it gives for addresses
 MC_AsIsWitness ==
-    {Net("out", "in", "a", {[ip |-> "a6", sec |-> "an", when |-> "A", r |-> A(H("w", L1), Evil)]}, {}, {})}
+    {<<"out", "in", "a", {[ip |-> "a6", sec |-> "an", when |-> "A", r |-> A(H("w", L1), Evil)]}, {}, {}>>}
 =============================================================================
